@@ -6,6 +6,7 @@ import Driver.C06
 import Driver.C14
 import Driver.C15
 import Driver.C16
+import Driver.C17
 import Driver.Util
 /-! Line-protocol driver: one request per line `Cxx <op> <args…>`, one answer
 per line. Executes the Lean models for the correspondence check. -/
@@ -20,6 +21,7 @@ def dispatch (line : String) : String :=
   | "C14" :: args => Driver.C14.handle args
   | "C15" :: args => Driver.C15.handle args
   | "C16" :: args => Driver.C16.handle args
+  | "C17" :: args => Driver.C17.handle args
   | "util" :: args => Driver.Util.handle args
   | ["ping"] => "pong"
   | _ => "bad-op"
